@@ -26,7 +26,7 @@ Theorem C19_frame_check_sound_partial before op signer params after decs :
   c19_step before (Step op signer 0 params after decs) = [] -> 0 <= signer ->
   ~ In op privileged_ops ->
   forall acct comp role, In (acct, comp, role) decs ->
-    role = "signer"%string \/ exception_ok op role comp = true.
+    role = "signer"%string \/ exception_ok op params role comp = true.
 Proof. exact (c19_step_sound before op signer params after decs). Qed.
 Print Assumptions C19_frame_check_sound_partial.
 
@@ -42,3 +42,11 @@ Theorem C19_remove_selector_rejected sels sel stake mn nsel cap :
   mn <= stake \/ nsel <= cap -> remove_selector sels sel stake mn nsel cap = None.
 Proof. exact (remove_selector_rejected sels sel stake mn nsel cap). Qed.
 Print Assumptions C19_remove_selector_rejected.
+
+(* the first exception is for funded disputes only: a dispute message that reduced the stake of the disputed reporter
+   or of its backers left the dispute fully funded *)
+Theorem C19_dispute_exception_needs_funding op params role comp :
+  exception_ok op params role comp = true ->
+  str_in role ["disputed_reporter"; "backer_of_disputed"]%string = true -> funded_after params = true.
+Proof. exact (dispute_exception_needs_funding op params role comp). Qed.
+Print Assumptions C19_dispute_exception_needs_funding.
